@@ -933,6 +933,36 @@ def selfcheck_replay():
         raise common.HarnessError("replay of schedule %s diverged" % (p,))
 
 
+def burst_worker(task):
+    """start / pause / resume on replications with k simultaneous events or
+    a chain of k zero-delay events: the run ends by itself in (ENDED, ENDED)
+    having executed every event, a pause holds, nothing else stops it"""
+    from vlib import progmc
+    from checks import c03 as _c03
+    clock, k = task
+    coopsched.install()
+    n = 0
+    viols = []
+    for name, prog, end in progmc.burst_programs(k):
+        if name not in ("batch", "chain", "ladder"):
+            continue
+        segs = [[], [("pause_at", 0)], [("pause_at", k // 2)],
+                [("pause_at", k - 1)], [("step",)] * min(k, 3)]
+        for seg in segs:
+            pieces = list(seg) + [("start",), ("start",)]
+            n += 1
+            bad, _ = _c03.judge(prog, clock, pieces, end=end)
+            bad = [b for b in bad if b[0] in ("state", "outcome", "trace",
+                                              "clock", "composition",
+                                              "escaped-exception")]
+            for b in bad[:1]:
+                viols.append(("C04:burst:%s:%s" % (name, b[0]),
+                              "%s of %d events, %s clock, commands %s: %s" % (
+                                  name, k, clock, pieces, str(b)[:300]),
+                              {"part": "burst", "clock": clock, "k": k}))
+    return n, viols
+
+
 def run(ctx):
     quick = ctx.tier == "quick"
     coopsched.install()
@@ -960,6 +990,17 @@ def run(ctx):
                 rank=len(seq))
     ctx.part("C04a raw command sequences (no dedup)", sequences=nraw,
              depth=depth)
+    ks = [1, 2, 8, 16, 17, 32, 33, 34, 40] if quick else \
+        list(range(1, 49)) + [64, 65]
+    nb = 0
+    for n_, bv in common.pimap(burst_worker, [(c_, k) for k in reversed(ks)
+                                              for c_ in ("float", "int")]):
+        nb += n_
+        for sig, what, rep in bv:
+            ctx.violation(sig, what, rep, rank=rep["k"])
+    ctx.part("C04a long replications (k simultaneous / chained events, k in "
+             "%s): start, pause, resume, steps" % ks, executions=nb)
+    nraw += nb
     # ---------------- C04b
     plan = [("S1", 2), ("S3f", 2), ("S4", 2), ("S5cleanup", 2), ("S5init", 1),
             ("S6", 1), ("S8", 1), ("S9", 1), ("S10", 1), ("S2", 1)] if quick else \
@@ -1007,6 +1048,8 @@ def run(ctx):
 
 def replay(data):
     coopsched.install()
+    if data.get("part") == "burst":
+        return burst_worker((data["clock"], data["k"]))[1][:3] or None
     if data.get("part") == "b":
         fn = SCEN[data["scenario"]][0]
         judge = judge_b(data["scenario"])
